@@ -10,7 +10,7 @@ for d in seeded/*/; do
   if ! git -C /repo apply /verif/$d/patch.diff 2>/dev/null; then echo "$id APPLY-FAILED"; continue; fi
   if cargo build --release --offline -p dv 2>&1 | grep -qE "^error"; then echo "$id BUILD-FAILED"; git -C /repo checkout -- .; continue; fi
   rm -rf /var/tmp/dv-mut-home; mkdir -p /var/tmp/dv-mut-home; cp known_findings.jsonl /var/tmp/dv-mut-home/
-  props="$prop"; [ -n "${ALL:-}" ] && props="C01 C02 C03 C04 C05 C06 C07 C08 C09 C10 C11 C12 C13 C14 C15 C16 C17"
+  props=$(jq -r '(.checks // []) | join(" ")' $d/meta.json 2>/dev/null); [ -z "$props" ] && props="$prop"; [ -n "${ALL:-}" ] && props="C01 C02 C03 C04 C05 C06 C07 C08 C09 C10 C11 C12 C13 C14 C15 C16 C17"
   for q in $props; do
     out=$(DV_HOME=/var/tmp/dv-mut-home ./target/release/dv check $q --tier ${TIER:-quick} 2>&1); rc=$?
     summ=$(echo "$out" | grep -E "^C[0-9]+ (quick|thorough)" | sed -E 's/, [0-9]+ step-bound.*other oracles/ other/; s/, [0-9.]+s \(.*//')
